@@ -21,7 +21,7 @@ from mc.oracles import geometry as geo
 LEVEL = "exploration"
 CLASSES = ["Cuboid", "Cylinder", "CylinderSegment", "Sphere", "Tetrahedron", "TriangularMesh", "Triangle", "Circle", "Polyline", "Dipole", "DipoleMz", "DipolePz", "DipoleMx", "TriangularMeshMulti", "TriangularMeshUnchecked", "TriangleNormalPol",
            "Sensor"]
-PATHS = ["static", "transl3", "rot4", "spin4"]
+PATHS = ["static", "transl3", "rot4", "spin4", "eqangle4"]
 FRAMES = ["default", 1, 2, [0, 2], [0, 9]]
 UNITS = ["m", "mm", "km", "Mm", "µm", "auto:Mm", "auto:µm", "auto:m"]
 NEST = ["bare", "coll", "nested", "deep3", "deep4"]
@@ -72,6 +72,9 @@ def mk(cls, pathkind, scale=1.0):
     elif pathkind == "rot4":
         o.move(np.array([(0.5, 0.2, 0.1), (1.0, 0.1, -0.2), (1.2, 0.8, 0.3)]) * scale)
         o.rotate_from_rotvec([(0.0, 0.3, 0.1), (0.4, 0.1, -0.3), (0.2, -0.6, 0.5)], degrees=False, start=1)
+    elif pathkind == "eqangle4":   # four poses whose rotations have the SAME angle about different axes / senses
+        o.move(np.array([(2.5, 0.2, 0.1), (5.0, 0.1, -0.2), (7.2, 0.8, 0.3)]) * scale)
+        o.orientation = R.from_rotvec(1.1 * np.array([(1.0, 0, 0), (0.6, 0.8, 0), (0, 0.6, 0.8), (0, -0.6, -0.8)]))
     elif pathkind == "spin4":   # turns on the spot: one position, four orientations
         o.rotate_from_angax([40, 80, 120], (1, 2, 3))
     elif pathkind == "long11":  # longer than the number of frames an animation is allowed below: indices are downsampled
@@ -715,7 +718,7 @@ def enumerate_cases(tier):
             for frames in FRAMES:
                 if pk == "static" and frames != "default":
                     continue
-                if pk == "spin4" and (cls == "Sphere" or cls.startswith("Dipole")):
+                if pk in ("spin4", "eqangle4") and (cls == "Sphere" or cls.startswith("Dipole")):
                     continue   # poses of a body that is symmetric under the turn cannot be told apart in the drawing
                 for unit in (UNITS if tier == "thorough" else ["m", "mm", "Mm", "auto:Mm", "auto:µm"]):
                     for nest in NEST:
@@ -752,7 +755,7 @@ def enumerate_cases(tier):
             continue   # autosized glyphs are backend specific
         for pk in PATHS:
             for frames in FRAMES:
-                if (pk == "static" and frames != "default") or (pk == "spin4" and cls == "Sphere"):
+                if (pk == "static" and frames != "default") or (pk in ("spin4", "eqangle4") and cls == "Sphere"):
                     continue
                 for unit in (["m", "mm", "km"] if tier == "thorough" else ["m", "mm"]):
                     cases.append({"backend": "matplotlib", "cls": cls, "path": pk, "frames": frames, "unit": unit, "nest": "bare", "anim": False,
